@@ -109,6 +109,17 @@ def check_bank(mtjs, order=None):
             mts = [extract(t) for t in live]
             for t in live:
                 grammar.extract(t, g, lex)
+        elif order == 'snapshot':
+            # a grammar that is used while it still grows: after every tree a binarized snapshot is taken
+            # (deterministic and markovized; the results are dropped), then extraction goes on
+            for mt in mts:
+                grammar.extract(build(mt), g, lex)
+                grammar.binarize(g)
+                grammar.binarize(g, reordering=grammar.reordering_optimal)
+                grammar.binarize(g, markov_opts={'v': 1, 'h': 1})
+                grammar.binarize(g, markov_opts={'v': 2, 'h': 1, 'nofanout': True})
+            grammar.extract(build(mts[-1]), g, lex)
+            mts = mts + [mts[-1]]
         else:
             for mt in mts:
                 ret = grammar.extract(build(mt, child_order=order), g, lex)
@@ -176,7 +187,7 @@ def run_chunk(chunk):
         if chunk['kind'] == 'single':
             for sh, k in sweep.iter_shapes(chunk):
                 for mt in label_variants(sh, chunk['dev']):
-                    for order in (None, 'rev', 'export+raise', 'written') + (('collapse',) if k else ()):
+                    for order in (None, 'rev', 'export+raise', 'written', 'snapshot') + (('collapse',) if k else ()):
                         vs, nt = check_bank([mt.to_json()], order)
                         take(vs, nt, (mt.key(), order))
                 res.sample({'treebank': [model.mt_str(mt.root, mt.toks)]})
@@ -194,3 +205,28 @@ def run_chunk(chunk):
                 take(vs, nt, combo)
             res.sample({'treebank': [model.mt_str(m.root, m.toks) for m in bank]})
     return res
+
+
+# --- non-initial states: the oracle of this property in every state of the live-state pool
+# (vt/livepool.py: BFS over live objects; vt/liveoracles.py: the oracles)
+from .. import liveoracles as _lo
+_plan0, _run_chunk0, _check_case0 = plan, run_chunk, check_case
+
+
+def plan(tier, seed):
+    p = _plan0(tier, seed)
+    p['chunks'] = list(p['chunks']) + _lo.plan_chunks(tier)
+    p['assumptions'] = list(p.get('assumptions', [])) + [_lo.assumption()]
+    return p
+
+
+def run_chunk(chunk):
+    if chunk.get('kind') == 'live':
+        return _lo.run_chunk(ID, chunk, Result())
+    return _run_chunk0(chunk)
+
+
+def check_case(case):
+    if isinstance(case, dict) and isinstance(case.get('live'), dict):
+        return _lo.replay(case)
+    return _check_case0(case)
